@@ -22,7 +22,7 @@ KNN_METRICS = sorted(n for n in M.NAMES if M.symmetric(n) and M.dissimilarity(n)
 def knn_case(draw, nmax=10, kinds=("knn", "unsup"), nq=(0, 0), kmax_force=False, modes=("feat", "feat", "feat", "pre"), metrics=None, point_kinds=None, jitter=True):
     model = draw(st.sampled_from(list(kinds)))
     mode = draw(st.sampled_from(list(modes)))
-    nt = draw(st.one_of(st.integers(3, min(nmax, 6)), st.integers(3, nmax), st.integers(min(7, nmax), nmax)))
+    nt = draw(st.one_of(st.integers(2, min(nmax, 6)), st.integers(3, nmax), st.integers(min(7, nmax), nmax)))
     n_q = draw(st.integers(nq[0], nq[1]))
     hi_k = min(nt - 1, 5)
     if kmax_force and hi_k >= 2 and draw(st.integers(0, 4)) > 0:
@@ -85,6 +85,11 @@ def knn_case(draw, nmax=10, kinds=("knn", "unsup"), nq=(0, 0), kmax_force=False,
                 X[q] = list(X[draw(st.integers(0, nt - 1))])
             elif r == 1 and kind in ("generic", "positive", "nonneg0"):
                 X[q] = [v + 500.0 for v in X[q]]
+        if kind == "lattice" and not case.get("pkind_jitter") and draw(st.booleans()):
+            case["train_int"] = True  # integer-typed training matrix; validation / query rows real-valued
+            for q in range(nt, m):
+                if draw(st.booleans()):
+                    X[q] = [v + draw(st.sampled_from([0.5, 0.9, 0.25])) for v in X[q]]
         case.update({"X": X, "metric": name, "pkind": kind})
     return case
 
@@ -137,7 +142,7 @@ def run(case, predict=True, record_criterion=True, need_symmetric=True):
         name = case["metric"]
         X = [list(map(float, p)) for p in case["X"]]
         dim = len(X[0])
-        Xtr = np.array(X[:nt], dtype=float).reshape(nt, dim)
+        Xtr = np.array(X[:nt], dtype=np.int64 if case.get("train_int") else float).reshape(nt, dim)
         Xv = np.array(X[nt:nt + nv], dtype=float).reshape(nv, dim)
         Xq = np.array(X[nt + nv:], dtype=float).reshape(nq, dim)
         I_tr = I_v = I_q = None
@@ -156,6 +161,7 @@ def run(case, predict=True, record_criterion=True, need_symmetric=True):
                 return "asymmetric_by_rounding"
     Y = None if case.get("Y") is None else np.array(case["Y"], dtype=int)
     r.criterion = []
+    r.loop_density = []
     if case["model"] == "knn":
         Yv = np.array(case["Yv"], dtype=int)
         orig = g.opf_accuracy
@@ -163,6 +169,7 @@ def run(case, predict=True, record_criterion=True, need_symmetric=True):
         def wrapped(labels, preds):
             v = orig(labels, preds)
             r.criterion.append((int(model.subgraph.best_k), float(v), [int(a) for a in labels], [int(p) for p in preds]))
+            r.loop_density.append(float(model.subgraph.density))
             return v
 
         g.opf_accuracy = wrapped
